@@ -15,7 +15,7 @@ def main():
     plan = []
     for fam in fams:
         for impl in ('c', 'py'):
-            plan.append(dict(fam=fam, impl=impl, emb='mid' if fam[0] == 'O' or len(plan) % 2 else 'ext',
+            plan.append(dict(fam=fam, impl=impl, emb='ext' if fam[0] == 'O' or len(plan) % 2 else 'mid',
                              nkeys=3, seed=ck.seed * 100 + len(plan), weighted=True,
                              maxpairs=(3000 if impl == 'c' else 1200) if quick else 60000))
     run_setops(ck, plan, 'C12')
